@@ -210,7 +210,9 @@ pub fn evaluate(cfg: &Cfg, out: &RunOut, truth: Option<&Truth>, stable_path: boo
             if truth.is_some() && cur.answered.is_empty() && known_target_dist.is_none() && r.largest_ttl != 0 {
                 fail("C10", format!("round {round_idx}: nothing answered but largest_ttl {}", r.largest_ttl));
             }
-            if cur.sent.is_empty() { fail("C06", format!("round {round_idx} sent no probe")); }
+            // (a configuration with first_ttl > max_ttl or a window of zero probes - accepted by the library builder, refused by the
+            //  command line - can send nothing: "starts at first_ttl" and "never beyond max_ttl / the window" cannot both be met)
+            if cur.sent.is_empty() && cfg.first_ttl <= cfg.max_ttl && cfg.max_inflight >= 1 { fail("C06", format!("round {round_idx} sent no probe")); }
             // next round
             if let Some(next_first) = out.sends.get(send_i).map(|x| x.0.sequence.0) {
                 if let Some(last) = cur.sent.last().map(|x| x.0) {
@@ -222,6 +224,16 @@ pub fn evaluate(cfg: &Cfg, out: &RunOut, truth: Option<&Truth>, stable_path: boo
             prev_round_seqs = cur.sent.iter().map(|x| x.0).collect();
             cur = RoundTruth { start: it.adv, ..Default::default() };
             round_idx += 1;
+        }
+    }
+    // ---- a run the harness had to end (iteration budget of the environment): every iteration waits at least one read timeout, so the
+    //      budget alone is no failure for long traces - but the round in progress must not have been open for longer than the
+    //      policy allows (max-round-duration plus one wait of at most 10 ms and the sends of one iteration)
+    if out.budget_hit && truth.is_some() {
+        let open_for = out.end_ns.saturating_sub(cur.start);
+        if open_for > cfg.max_ns + 25_000_000 {
+            fail("C08", format!("round {round_idx} was still open {open_for} ns after it started (max-round-duration {} ns) when the harness gave up", cfg.max_ns));
+            fail("C09", format!("the run did not terminate: round {round_idx} of {} never completed", cfg.max_rounds));
         }
     }
     // ---- C09: termination and failure semantics
